@@ -67,7 +67,11 @@ class Report(object):
         """Write replays + evidence, print verdict lines, return exit code."""
         findings = load_findings()
         opens = [f for f in findings.get("open", []) if f.get("property") == self.prop]
-        rdir = os.path.join(common.VERIF, "replays", self.prop)
+        # runs against a scratch copy (VX_REPO != /repo: mutation self-tests) must not overwrite
+        # the evidence and replays that belong to /repo
+        foreign = os.environ.get("VX_NO_EVIDENCE") == "1" or common.REPO != "/repo"
+        outroot = common.VERIF if not foreign else os.path.join("/tmp", "vx-foreign-%d" % os.getuid())
+        rdir = os.path.join(outroot, "replays", self.prop)
         new, known = [], {}
         for v in self.violations:
             hit = None
@@ -124,8 +128,8 @@ class Report(object):
             wall_s=round(wall, 2),
             violations=len(new),
         )
-        os.makedirs(os.path.join(common.VERIF, "evidence"), exist_ok=True)
-        with open(os.path.join(common.VERIF, "evidence", self.prop + ".json"), "w") as fh:
+        os.makedirs(os.path.join(outroot, "evidence"), exist_ok=True)
+        with open(os.path.join(outroot, "evidence", self.prop + ".json"), "w") as fh:
             json.dump(ev, fh, indent=1, sort_keys=True)
         print("%s tier=%s seed=%s: states=%d transitions=%d impl_cases=%d distinct=%d violations=%d known=%d wall=%.1fs"
               % (self.prop, self.tier, self.seed, self.states, self.transitions, self.evaluations,
